@@ -38,7 +38,7 @@ ASSUMPTIONS = [
 FPS = [Fraction(24), Fraction(25), Fraction(30), Fraction(50), Fraction(60), Fraction(24000, 1001), Fraction(30000, 1001)]
 FORMATS = [None, "clock_time", "frames", "clock_time_with_frames"]
 PROF = gen_model.profile(style_density=(0, 4), max_nodes=24, br_styles=True, arbitrary_times=False, anim_on_offset=True,
-                         xml_safe=True, text_unicode=False, anim_counts=(0, 0, 1, 2), time_density=3, edges=True, ruby_full=True,
+                         xml_safe=True, text_unicode=False, anim_counts=(0, 0, 1, 2), time_density=3, edges=True, ruby_full=True, extreme_numbers=True,
                          time_shifts=[Fraction(0), Fraction(0), Fraction(59), Fraction(3599), Fraction(86399), Fraction(359990)])
 # times just below a minute / an hour that are not millisecond multiples: rounding to the written unit carries into the next field
 PROF_ROUND = gen_model.profile(**dict(PROF, arbitrary_times=True, max_nodes=16,
